@@ -9,7 +9,10 @@
 //   S <f|r> <h|->     scan, visitor returns true at its h-th call (0-based)
 //   F <key> <f|r> <h|->   scan_from
 //   Q <a> <b> <h|->   scan_range
-//   D                 canonical dump + statistics + held-view check
+//   QA <a> <n> <h|->  scan_range(a, first n bytes of the SAME buffer)   (byte keys: bounds that alias one caller buffer)
+//   QB <a> <n> <h|->  scan_range(first n bytes of the same buffer, a)
+//   D                 canonical dump + statistics + held-view check (+ with the verification hooks: bytes held from
+//                     the allocator must equal the reported memory use -> HEAPBAD; N reports LEAK after destruction)
 // Keys and values are hex byte strings ("-" = empty); for u64 indexes the key
 // is the 8-byte big-endian (binary comparable) form of the integer.
 #include "global.hpp"
@@ -212,6 +215,25 @@ void quiesce() {
   if constexpr (is_olc<Db>::value) unodb::this_thread().quiescent();
 }
 
+#ifdef UNODB_DETAIL_VERIF_HOOKS
+// blocks currently held from the allocator (C10: equals the reported memory use; all returned at destruction)
+std::map<const void*, std::uint64_t>& live_blocks() {
+  static std::map<const void*, std::uint64_t> m;
+  return m;
+}
+bool tracking = false;
+void mem_obs(unsigned kind, const void* addr, std::uint64_t a, std::uint64_t, std::uint64_t) {
+  if (!tracking) return;
+  if (kind == unodb::detail::verif::mem_alloc) live_blocks()[addr] = a;
+  if (kind == unodb::detail::verif::mem_free) live_blocks().erase(addr);
+}
+std::uint64_t live_bytes() {
+  std::uint64_t n = 0;
+  for (auto& kv : live_blocks()) n += kv.second;
+  return n;
+}
+#endif
+
 struct held_view {
   const std::byte* ptr;
   std::size_t len;
@@ -234,10 +256,16 @@ int run() {
       db.reset();
       quiesce<Db>();
       quiesce<Db>();
+      out = "N";
+#ifdef UNODB_DETAIL_VERIF_HOOKS
+      if (tracking && !live_blocks().empty())
+        out += " LEAK=" + std::to_string(live_bytes()) + "/" + std::to_string(live_blocks().size());
+      live_blocks().clear();
+      tracking = true;
+#endif
       db = std::make_unique<Db>();
       held.clear();
       next_id = 0;
-      out = "N";
     } else if (op == "I") {
       std::string ks, vs;
       is >> ks >> vs;
@@ -285,11 +313,13 @@ int run() {
       db->clear();
       held.clear();
       out = "C";
-    } else if (op == "S" || op == "F" || op == "Q") {
+    } else if (op == "S" || op == "F" || op == "Q" || op == "QA" || op == "QB") {
       std::string a, b, dir, hs;
+      std::size_t alias_n = 0;
       if (op == "S") is >> dir >> hs;
       if (op == "F") is >> a >> dir >> hs;
       if (op == "Q") is >> a >> b >> hs;
+      if (op == "QA" || op == "QB") is >> a >> alias_n >> hs;
       long halt = hs == "-" ? -1 : std::stol(hs);
       long calls = 0;
       std::string acc;
@@ -306,6 +336,14 @@ int run() {
       if (op == "S") db->scan(fn, dir == "f");
       if (op == "F") db->scan_from(to_key<Key>(ab), fn, dir == "f");
       if (op == "Q") db->scan_range(to_key<Key>(ab), to_key<Key>(bb), fn);
+      if (op == "QA" || op == "QB") {
+        if constexpr (std::is_same_v<Key, unodb::key_view>) {
+          const unodb::key_view full{ab.data(), ab.size()};
+          const unodb::key_view part{ab.data(), std::min(alias_n, ab.size())};
+          if (op == "QA") db->scan_range(full, part, fn);
+          else db->scan_range(part, full, fn);
+        }
+      }
       out = acc.empty() ? "none" : acc;
     } else if (op == "D") {
       std::ostringstream os;
@@ -326,6 +364,12 @@ int run() {
       for (auto& [k, h] : held)
         if (h.len != h.val.size() || (h.len != 0 && std::memcmp(h.ptr, h.val.data(), h.len) != 0)) views_ok = false;
       if (!views_ok) out += " VIEWBAD";
+#if defined(UNODB_DETAIL_VERIF_HOOKS) && defined(UNODB_DETAIL_WITH_STATS)
+      quiesce<Db>();
+      quiesce<Db>();
+      if (tracking && live_bytes() != db->get_current_memory_use())
+        out += " HEAPBAD(held=" + std::to_string(live_bytes()) + ",reported=" + std::to_string(db->get_current_memory_use()) + ")";
+#endif
     } else if (op == "Z") {
       // sizes of the node classes in this build
       using namespace unodb::detail;
@@ -357,6 +401,9 @@ int main(int argc, char** argv) {
   if (argc < 3) return 2;
   const std::string cls = argv[1], kind = argv[2];
   using V = unodb::value_view;
+#ifdef UNODB_DETAIL_VERIF_HOOKS
+  unodb::detail::verif::obs_hook.store(&mem_obs);
+#endif
   try {
     if (kind == "u64") {
       if (cls == "db") return run<unodb::db<std::uint64_t, V>, std::uint64_t>();
